@@ -973,12 +973,50 @@ impl Pass {
     }
 }
 
+fn diverges(e: &Expr) -> bool {
+    match e {
+        Expr::Return(_) | Expr::Continue(_) | Expr::Break(_) => true,
+        Expr::Macro(m) => ["panic", "unreachable", "unimplemented", "todo"].iter().any(|n| m.mac.path.is_ident(n)),
+        Expr::Block(b) => matches!(b.block.stmts.last(), Some(Stmt::Expr(e, _)) if diverges(e)),
+        _ => false,
+    }
+}
+
 impl Pass {
     /// syntactic Option/Result classification (rule X12); Unknown means "leave the combinator alone"
     fn kind_of(&self, e: &Expr) -> Kind {
         match e {
             Expr::Paren(p) => self.kind_of(&p.expr),
             Expr::Reference(r) => self.kind_of(&r.expr),
+            // a `match` / `if` / block whose every value-producing arm has the same known kind
+            Expr::Match(m) => {
+                let mut k: Option<Kind> = None;
+                for a in m.arms.iter() {
+                    if diverges(&a.body) {
+                        continue;
+                    }
+                    let ka = self.kind_of(&a.body);
+                    if ka == Kind::Unknown || (k.is_some() && k != Some(ka)) {
+                        return Kind::Unknown;
+                    }
+                    k = Some(ka);
+                }
+                k.unwrap_or(Kind::Unknown)
+            }
+            Expr::If(i) => match &i.else_branch {
+                Some((_, eb)) => {
+                    let kt = match i.then_branch.stmts.last() {
+                        Some(Stmt::Expr(e, None)) => self.kind_of(e),
+                        _ => Kind::Unknown,
+                    };
+                    if kt != Kind::Unknown && self.kind_of(eb) == kt { kt } else { Kind::Unknown }
+                }
+                None => Kind::Unknown,
+            },
+            Expr::Block(b) => match b.block.stmts.last() {
+                Some(Stmt::Expr(e, None)) => self.kind_of(e),
+                _ => Kind::Unknown,
+            },
             Expr::Path(p) => match p.path.get_ident() {
                 Some(id) => {
                     let n = id.to_string();
